@@ -296,12 +296,12 @@ func (t *Total) Merge(t2 *Total) *Total {
 			catTotal = ct.clone()
 			nt.Categories = append(nt.Categories, catTotal)
 		} else {
-			catTotal.Amount = catTotal.Amount.Add(ct.Amount)
-			catTotal.amount = catTotal.amount.Add(ct.amount)
+			catTotal.Amount = catTotal.Amount.MatchPrecision(ct.Amount).Add(ct.Amount)
+			catTotal.amount = catTotal.amount.MatchPrecision(ct.amount).Add(ct.amount)
 			if ct.Surcharge != nil {
 				ns := *ct.Surcharge
 				if catTotal.Surcharge != nil {
-					ns = catTotal.Surcharge.Add(*ct.Surcharge)
+					ns = catTotal.Surcharge.MatchPrecision(*ct.Surcharge).Add(*ct.Surcharge)
 				}
 				catTotal.Surcharge = &ns
 			}
@@ -333,10 +333,10 @@ func (t *Total) Merge(t2 *Total) *Total {
 					catTotal.Rates = append(catTotal.Rates, rateTotal)
 				} else {
 					// Merge the amounts
-					rateTotal.Base = rateTotal.Base.Add(rt.Base)
-					rateTotal.Amount = rateTotal.Amount.Add(rt.Amount)
+					rateTotal.Base = rateTotal.Base.MatchPrecision(rt.Base).Add(rt.Base)
+					rateTotal.Amount = rateTotal.Amount.MatchPrecision(rt.Amount).Add(rt.Amount)
 					if rt.Surcharge != nil {
-						rateTotal.Surcharge.Amount = rateTotal.Surcharge.Amount.Add(rt.Surcharge.Amount)
+						rateTotal.Surcharge.Amount = rateTotal.Surcharge.Amount.MatchPrecision(rt.Surcharge.Amount).Add(rt.Surcharge.Amount)
 					}
 				}
 			}
@@ -344,8 +344,8 @@ func (t *Total) Merge(t2 *Total) *Total {
 	}
 
 	// Merge the sum
-	nt.Sum = nt.Sum.Add(t2.Sum)
-	nt.sum = nt.sum.Add(t2.sum)
+	nt.Sum = nt.Sum.MatchPrecision(t2.Sum).Add(t2.Sum)
+	nt.sum = nt.sum.MatchPrecision(t2.sum).Add(t2.sum)
 
 	return nt
 }
